@@ -2,34 +2,90 @@ import sys, os
 sys.path.insert(0, os.path.dirname(os.path.dirname(os.path.abspath(__file__))))
 from checks import *
 
-BDD_CORE = ['bdd_bu_tree_aut', 'bdd_bu_tree_aut_core', 'bdd_td_tree_aut', 'bdd_td_tree_aut_core', 'symbolic_tree_aut_base_core', 'sym_var_asgn']
+BDD_CORE = ['bdd_bu_tree_aut', 'bdd_bu_tree_aut_core', 'bdd_td_tree_aut', 'bdd_td_tree_aut_core', 'symbolic_tree_aut_base_core', 'sym_var_asgn', 'symbolic']
 BDD_OPS = BDD_CORE + ['bdd_bu_tree_aut_union', 'bdd_bu_tree_aut_union_disj', 'bdd_bu_tree_aut_isect', 'bdd_bu_tree_aut_unreach', 'bdd_bu_tree_aut_useless',
                       'bdd_td_tree_aut_union', 'bdd_td_tree_aut_union_disj', 'bdd_td_tree_aut_isect', 'bdd_td_tree_aut_unreach', 'bdd_td_tree_aut_useless']
 
 def ops(na, nb, ranks, **kw):
     d = {'NA': na, 'NB': nb, 'SYM_RANKS': '{%s}' % ','.join(str(r) for r in ranks)}
     d.update(kw); return d
+def seq(na, nb, nc, ranks, **kw):
+    d = {'NA': na, 'NB': nb, 'NC': nc, 'SYM_RANKS': '{%s}' % ','.join(str(r) for r in ranks)}
+    d.update(kw); return d
+
+# sub-universes (bit i = universe rule i is a solver variable, the other rules are absent)
+SAME8 = '0x109bul'      # 2 states, {a/0,a/1,a/2}: a->q0, a->q1, a(q1)->q0, a(q0)->q1, a(q0,q1)->q0, a(q1,q0)->q1
+SAME12 = '0x16bful'     # 2 states, {a/0,a/1,a/2}: all nullary and unary rules, a(q0,q1)->q0, a(q1,q1)->q0, a(q0,q0)->q1, a(q1,q0)->q1
+BIN6 = '0x16bul'        # 2 states, {a/0,g/2}: a->q0, a->q1, g(q0,q1)->q0, g(q1,q1)->q0, g(q0,q0)->q1, g(q1,q0)->q1
+BIN3_11 = '0x2889917ul' # 3 states, {a/0,g/2}: the 3 nullary rules and 8 binary rules, every state parent and child
 
 def c08_ops(tier):
     out = []
     for enc in (0, 1):
         unary = [0, 4, 5] + ([6] if enc == 0 else [])
         for op in unary:
-            out.append(ops(2, 0, [0, 1], ENC=enc, OP=op))                      # 8 bits
+            out.append(ops(2, 0, [0, 1], ENC=enc, OP=op))                                      # 8 bits
+            out.append(ops(2, 0, [0, 0, 1], ENC=enc, OP=op))                                   # 10 bits
+            if tier == 'thorough' or (op != 6 and (enc == 0 or op == 5)):                      # the others: 15..60 s each
+                out.append(ops(2, 0, [0, 2], ENC=enc, OP=op))                                  # 12 bits
+            out.append(ops(2, 0, [0, 1, 2], ENC=enc, OP=op, SAME_NAME=None, AFREE=SAME8))      # 8 bits, one symbol name with three ranks
+            if tier == 'thorough':
+                out.append(ops(3, 0, [0, 1], ENC=enc, OP=op, _time=2400))                      # 15 bits
+                out.append(ops(2, 0, [0, 1, 2], ENC=enc, OP=op, SAME_NAME=None, AFREE=SAME12, _time=2400))   # 12 bits
+                out.append(ops(3, 0, [0, 2], ENC=enc, OP=op, AFREE=BIN3_11, _time=2400))       # 14 bits
+        # state numbers / symbol codes handed out by the loader in order of appearance, or fixed in another order
+        out.append(ops(2, 0, [0, 1], ENC=enc, OP=0, SEED=0))
+        out.append(ops(2, 0, [0, 1], ENC=enc, OP=0, PRIME=1))
+        out.append(ops(2, 0, [0, 1], ENC=enc, OP=5, SEED=0, PRIME=2))
+        # trimming a copy that shares the table of the original
+        out.append(ops(2, 0, [0, 1], ENC=enc, OP=4, SHARE=1))
+        out.append(ops(2, 0, [0, 1], ENC=enc, OP=5, SHARE=1))
         for op in (1, 2, 3):
-            out.append(ops(2, 1, [0, 1], ENC=enc, OP=op))                      # 11 bits
+            out.append(ops(2, 1, [0, 1], ENC=enc, OP=op))                                      # 11 bits
+            out.append(ops(1, 2, [0, 1], ENC=enc, OP=op))                                      # 11 bits
+            out.append(ops(1, 1, [0, 0, 1, 2], ENC=enc, OP=op))                                # 10 bits
+            out.append(ops(2, 2, [0, 1], ENC=enc, OP=op, SHARE=1))                             # 10 bits, operands share one table
+            if tier == 'thorough' or enc == 0 or op != 3:
+                out.append(ops(2, 2, [0, 2], ENC=enc, OP=op, SHARE=1, AFREE=BIN6))             # 10 bits, operands share one table
+            if op != 2: out.append(ops(2, 1, [0, 1], ENC=enc, OP=op, SEED=0))                  # 11 bits
+            if tier == 'thorough':
+                out.append(ops(2, 2, [0, 1], ENC=enc, OP=op, _time=2400))                      # 16 bits
+                out.append(ops(2, 1, [0, 2], ENC=enc, OP=op, AFREE=BIN6, _time=2400))          # 11 bits
+                out.append(ops(2, 2, [0, 2], ENC=enc, OP=op, SHARE=1, _time=2400))             # 14 bits
+    return out
+
+def c08_seq(tier):
+    out = []
+    for enc in (0, 1):
+        for s in (1, 5):
+            out.append(seq(1, 1, 1, [0, 1], ENC=enc, SEQ=s))                                   # 9 bits
+            out.append(seq(1, 1, 1, [0, 0, 1], ENC=enc, SEQ=s))                                # 12 bits
+            if tier == 'thorough':
+                out.append(seq(2, 1, 1, [0, 1], ENC=enc, SEQ=s))                               # 14 bits
+                out.append(seq(1, 1, 1, [0, 2], ENC=enc, SEQ=s))                               # 9 bits
+        for s in (2, 3, 4) + ((6,) if enc == 0 else ()):
+            out.append(seq(1, 1, 0, [0, 0, 1], ENC=enc, SEQ=s))                                # 8 bits
+            if tier == 'thorough' or not (s == 6 or (enc == 1 and s == 3)):                    # those: ~50 s each
+                out.append(seq(2, 1, 0, [0, 1], ENC=enc, SEQ=s))                               # 11 bits
+            if tier == 'thorough':
+                out.append(seq(1, 2, 0, [0, 1], ENC=enc, SEQ=s))                               # 11 bits
+                out.append(seq(1, 1, 0, [0, 1, 2], ENC=enc, SEQ=s))                            # 8 bits
     return out
 
 CHECKS = {
  'C08': {
   'level': 'model_checking',
-  'explanation': 'Load (LoadFromString through a parser that hands over the AutDescription), Union, UnionDisjointStates, Intersection, RemoveUnreachableStates, RemoveUselessStates and GetTopDownAut of BDDBottomUpTreeAut / BDDTopDownTreeAut executed symbolically (MTBDD package included) on every automaton / pair drawn from the rule universe of the configuration; the result and every operand after the call are dumped with DumpToString (serializer that receives the AutDescription), decoded by name into rule masks and compared by language with the expected automaton (mask-level disjoint union / product / the operand itself) using an independent macro-state inclusion oracle.',
-  'bounds': {'quick': 'operands over <= 2 states, {a/0,f/1}', 'thorough': 'as quick'},
-  'outside': 'more than 3 states per operand, rank > 2',
+  'explanation': 'Load (LoadFromString through a parser object that hands over the AutDescription), Union, UnionDisjointStates, Intersection, RemoveUnreachableStates, RemoveUselessStates and GetTopDownAut of BDDBottomUpTreeAut / BDDTopDownTreeAut executed symbolically (MTBDD package, on-the-fly alphabet and state dictionaries included) on every automaton / pair / triple drawn from the rule universe of the configuration (presence bit per rule, finality bit per state). The result and every operand (and earlier result) after each call are dumped with DumpToString (serializer object that receives the AutDescription), decoded by state and symbol name into rule masks and compared by *language* with the expected automaton (the operand itself, mask-level disjoint union, mask-level product) using an independent macro-state inclusion oracle in both directions; after RemoveUselessStates every state the dump mentions must occur in an accepting run of the dumped automaton. harness bddops: one operation on fresh operands or on operands that are copies sharing one transition table; harness bddseq: two-call sequences starting with UnionDisjointStates (whose result shares its left operand\'s table).',
+  'bounds': {'quick': 'operands over <= 2 states: universes 2 x {a/0,f/1}, 2 x {a/0,b/0,f/1}, 2 x {a/0,g/2}, 2 x {a/0,a/1,a/2} (one name, three ranks; 6-rule sub-universe), pairs 2+1, 1+2 over {a/0,f/1}, 1+1 over {a/0,b/0,f/1,g/2}, table-sharing pairs over {a/0,f/1} and a 6-rule sub-universe of {a/0,g/2}; triples 1+1+1 over {a/0,f/1} and {a/0,b/0,f/1}; state numbers and symbol codes either fixed in advance or handed out by the loader; all rule subsets and final sets (8..12 free bits per query)',
+             'thorough': 'as quick plus 3 x {a/0,f/1}, an 11-rule sub-universe of 3 x {a/0,g/2}, 2 x {a/0,a/1,a/2} with 10 free rules, pairs 2+2 over {a/0,f/1}, 2+1 over {a/0,g/2}, table-sharing pairs over all of 2 x {a/0,g/2}, triples 2+1+1 (up to 16 free bits per query)'},
+  'outside': 'more than 3 states per operand, rank > 2, more than 4 symbols; sequences longer than two calls; the Timbuk text parser/serializer (the harness hands AutDescription objects over directly); loading into an automaton whose table is already shared (AddTransition asserts uniqueness); the "symbolic" load/dump parameter; state dictionaries other than the seeded / on-the-fly ones',
   'harnesses': [
     {'name': 'bddops', 'src': 'harness/C08/bddops.cc', 'tus': BDD_OPS,
      'configs': {'quick': c08_ops('quick'), 'thorough': c08_ops('thorough')},
      'selftest_config': ops(2, 1, [0, 1], ENC=0, OP=1), 'selftests': ['VS_SELFTEST_1', 'VS_SELFTEST_2']},
+    {'name': 'bddseq', 'src': 'harness/C08/bddseq.cc', 'tus': BDD_OPS,
+     'configs': {'quick': c08_seq('quick'), 'thorough': c08_seq('thorough')},
+     'selftest_config': seq(1, 1, 1, [0, 1], ENC=1, SEQ=5), 'selftests': ['VS_SELFTEST_1']},
   ],
  },
 }
